@@ -349,7 +349,8 @@ messageTypeSwitching:
 		for _, v := range *message {
 			err := m.processResponse(v)
 			if err != nil {
-				return errors.Wrap(err, "processing item in container")
+				// item which can't be processed is not a reason to lose all other items of container
+				m.warnError(errors.Wrap(err, "processing item in container"))
 			}
 		}
 
